@@ -92,7 +92,11 @@ CHECKS = {
              "calls eig for every k, which in {LM, SM} and every admissible algorithm (dense, Lanczos / Arnoldi with "
              "caps n and n+3, power iteration, the structural Identity / Diagonal / Triangular rules), eigmax and "
              "eigmin, and requires the returned values to be exactly the k eigenvalues of largest / smallest "
-             "magnitude, A v = lambda v with v != 0, independence and (self-adjoint) orthonormality.",
+             "magnitude, A v = lambda v with v != 0, independence and (self-adjoint) orthonormality; dense leaves are "
+             "also replayed scaled by 1e-6 / 1e5 with tolerances that follow the scale. A second TLC model "
+             "(spec/UnaryEigRules.tla, AutoChoice.tla) transcribes the eigenvalue / matrix-function rules and the "
+             "algorithm Auto() hands over to for every entry point, proves them sound on the enumerated trees (22 "
+             "mutant negative controls) and is compared with the rules and hand-overs recorded on the real resolver.",
         design="5/C10", technique="TLC-verified exact spectral oracle over enumerated trees + spec-to-code replay"),
     "C11": dict(
         text="TLC decides exactly which enumerated trees are Hermitian positive definite (leading principal minors) "
@@ -133,7 +137,8 @@ CHECKS = {
              "symmetric tridiagonal with non-negative off-diagonal, A Q - Q T, Krylov span, Ritz pairs) on the catalog "
              "and on seeded random Hermitian families to n = 300, single and batched; every recorded loop execution is "
              "trace-validated by TLC (negative controls).",
-        design="5/C14", technique="TLC exact Krylov oracle + control-skeleton model checking + trace validation of real loops"),
+        design="5/C14", technique="TLC exact Krylov oracle + control-skeleton model checking (unbounded: Apalache inductive "
+                                   "invariant) + trace validation of real loops"),
     "C15": dict(
         text="As C14 for Arnoldi: TLC's exact Krylov data (incl. non-normal, defective and complex catalog matrices) and "
              "the Arnoldi control skeleton give step count min(m, n, KDim), the number of orthonormal columns, buffer "
